@@ -2,6 +2,7 @@ import TextxVerif.Proofs.ExportModel
 import TextxVerif.Proofs.ExportPuml
 import TextxVerif.Proofs.ExportTotal
 import TextxVerif.Proofs.ExportDomain
+import TextxVerif.Proofs.ExportMMTotal
 import TextxVerif.ExportCall
 /-!
 # C29 — graph exports are well-formed for any model and metamodel
@@ -368,6 +369,150 @@ theorem C29_plantuml_checked (all : List MCls) (base : List Str) (lt : Option St
   obtain ⟨items, _, h3, h4⟩ := C29_plantuml_balanced all base lt hall (linetypeOk_of_B h2) text he
   exact ⟨_, h3, h4⟩
 
+/-! ## `metamodel_export_tofile`: totality, recognised class nodes, one label per class -/
+
+/-- **Metamodel totality.** When the class table is closed — the class of every attribute and every
+`inh_by` entry is in the table, which is how `get_unified_classes` builds it (both are looked up in
+`new_classes`) — both renderers produce a text, for every `linetype`. -/
+theorem C29_metamodel_total (all : List MCls) (base : List Str)
+    (h : ∀ c ∈ all, (∀ a ∈ c.attrs, (findCls all a.clsId).isSome) ∧ ∀ i ∈ c.inhBy, (findCls all i).isSome) :
+    (∃ t, mmDot all base = some t) ∧ ∀ lt, ∃ t, mmPuml all base lt = some t := by
+  have hc := (mmItems_isSome all (base ++ [cl!"OBJECT"])).mpr (mmClosed_of_all _ h)
+  constructor
+  · apply Option.isSome_iff_exists.mp
+    rw [mmDot_isSome]; exact hc
+  · intro lt
+    apply Option.isSome_iff_exists.mp
+    rw [mmPuml_isSome]; exact hc
+
+/-- **Exact domain.** A text is produced *exactly* when every class that is walked (fqn not a base
+type name) has the classes of its attributes and its `inh_by` entries in the table; the renderer and
+the `linetype` play no role. -/
+theorem C29_metamodel_total_iff (all : List MCls) (base : List Str) :
+    ((∃ t, mmDot all base = some t) ↔ MMClosed all (base ++ [cl!"OBJECT"])) ∧
+      ∀ lt, (∃ t, mmPuml all base lt = some t) ↔ MMClosed all (base ++ [cl!"OBJECT"]) := by
+  refine ⟨?_, fun lt => ?_⟩
+  · rw [← Option.isSome_iff_exists, mmDot_isSome]; exact mmItems_isSome _ _
+  · rw [← Option.isSome_iff_exists, mmPuml_isSome]; exact mmItems_isSome _ _
+
+/-- Every class that is not a match rule (and not a base type) is *recognised* as a node statement
+whose `label` is the well-formed record `{name|attrs}` / `{*name|}`: what a DOT reader sees. -/
+theorem C29_metamodel_nodes_recognised (all : List MCls) (base : List Str) (hall : ∀ c ∈ all, ClsOk c)
+    (text : Str) (he : mmDot all base = some text) (c : MCls) (hc : c ∈ all)
+    (h1 : c.fqn ∉ base ++ [cl!"OBJECT"]) (h2 : c.name ∉ base ++ [cl!"OBJECT"]) (hm : c.typ ≠ .match) :
+    ∃ evs, recognise text = some evs ∧
+      Ev.node (.num (digits c.id)) [(Tok.id cl!"label",
+        .qstr (recordLabel (if c.typ = .abstract then '*' :: c.name else c.name) (dotClassAttrs c)))] ∈ evs ∧
+      recOk (recordLabel (if c.typ = .abstract then '*' :: c.name else c.name) (dotClassAttrs c)) = true := by
+  obtain ⟨ss, _, _, hrec, _, hn⟩ := C29_metamodel_dot_valid all base hall text he
+  obtain ⟨hmem, hrecok⟩ := hn c hc h1 h2 hm
+  refine ⟨_, hrec, ?_, hrecok⟩
+  apply List.mem_append_right
+  apply List.mem_flatMap.mpr
+  exact ⟨_, hmem, by simp [stmtEvs]⟩
+
+/-- **One label per class.** Every node statement of the metamodel export is the node of a class of the
+table, and when the ids identify the classes (`id(cls)`) a node id never carries two different labels:
+a class that is written twice (see `C29_metamodel_nodes_nodup_false`) is written identically. -/
+theorem C29_metamodel_node_labels_unique (all : List MCls) (base : List Str) (ss : List Stmt)
+    (hs : mmDotStmts all base = some ss) (hn : (all.map (·.id)).Nodup) :
+    (∀ m i n a, Stmt.node m i n a ∈ ss → ∃ c ∈ all, c.typ ≠ .match ∧ i = c.id ∧
+        n = (if c.typ = .abstract then '*' :: c.name else c.name) ∧ a = dotClassAttrs c) ∧
+      ∀ m m' i n a n' a', Stmt.node m i n a ∈ ss → Stmt.node m' i n' a' ∈ ss → m = m' ∧ n = n' ∧ a = a' := by
+  constructor
+  · intro m i n a h
+    obtain ⟨c, hc, hm, _, r⟩ := mmDotStmts_node hs h
+    exact ⟨c, hc, hm, r⟩
+  · intro m m' i n a n' a' h h'
+    obtain ⟨c, hc, _, e1, e2, e3, e4⟩ := mmDotStmts_node hs h
+    obtain ⟨d, hd, _, f1, f2, f3, f4⟩ := mmDotStmts_node hs h'
+    have : c = d := eq_of_id_eq hn hc hd (e2 ▸ f2 ▸ rfl)
+    subst this
+    exact ⟨e1.trans f1.symm, e3.trans f3.symm, e4.trans f4.symm⟩
+
+/-- "No class has two nodes" is **false** for the metamodel export as it is: a class outside the walked
+classes that is not a match rule (`OBJECT`, abstract) is rendered once per attribute that refers to it. -/
+theorem C29_metamodel_nodes_nodup_false :
+    let obj : MCls := { id := 2, name := cl!"OBJECT", fqn := cl!"OBJECT", typ := .abstract, attrs := [], inhBy := [],
+                        matchStr := [] }
+    let mk (n : Str) : MAttr := { name := n, clsId := 2, clsName := cl!"OBJECT", clsFqn := cl!"OBJECT", mult := cl!"1",
+                                  cont := false, ref := true }
+    let a : MCls := { id := 1, name := cl!"A", fqn := cl!"A", typ := .common, attrs := [mk cl!"x", mk cl!"y"], inhBy := [],
+                      matchStr := [] }
+    (mmDotStmts [a, obj] []).map nodeIds = some [1, 2, 2] := by
+  decide +kernel
+
+/-- **No class has two nodes** — partial: it needs `NoOuterClass` (no attribute of a walked class points
+to a non-match class whose fqn is a base type name, in textX: no attribute refers to `OBJECT`); without
+it the statement is false (`C29_metamodel_nodes_nodup_false`).  Ids identify the classes. -/
+theorem C29_metamodel_nodes_nodup_partial (all : List MCls) (base : List Str) (ss : List Stmt)
+    (hs : mmDotStmts all base = some ss) (hn : (all.map (·.id)).Nodup)
+    (ho : NoOuterClass all (base ++ [cl!"OBJECT"])) : (nodeIds ss).Nodup :=
+  mmDotStmts_nodup hs hn ho
+
+/-- **Edges connect classes that have nodes.** On a closed class table every end of a link or
+inheritance edge of the metamodel DOT export is the id of a class of the table, and that class has its
+node statement unless it is a match rule or named like a base type (these are shown in the match table /
+not at all, Graphviz then draws an implicit node). -/
+theorem C29_metamodel_edges_have_nodes (all : List MCls) (base : List Str) (hall : ∀ c ∈ all, ClsOk c)
+    (h : ∀ c ∈ all, (∀ a ∈ c.attrs, (findCls all a.clsId).isSome) ∧ ∀ i ∈ c.inhBy, (findCls all i).isSome) :
+    ∃ text ss, mmDot all base = some text ∧ mmDotStmts all base = some ss ∧
+      ∀ i ∈ mmEdgeEnds ss, ∃ c ∈ all, c.id = i ∧
+        (c.fqn ∉ base ++ [cl!"OBJECT"] → c.name ∉ base ++ [cl!"OBJECT"] → c.typ ≠ .match → i ∈ nodeIds ss) := by
+  obtain ⟨⟨text, ht⟩, _⟩ := C29_metamodel_total all base h
+  obtain ⟨ss, hss, _, _, _, hn⟩ := C29_metamodel_dot_valid all base hall text ht
+  refine ⟨text, ss, ht, hss, ?_⟩
+  intro i hi
+  obtain ⟨c, hc, rfl⟩ := mmDotStmts_ends hss (fun c hc => (h c hc).1) i hi
+  refine ⟨c, hc, rfl, fun h1 h2 hm => ?_⟩
+  have := (hn c hc h1 h2 hm).1
+  simp only [nodeIds, List.mem_filterMap]
+  exact ⟨_, this, rfl⟩
+
+/-- no class has two nodes, with executable hypotheses (the driver reports for every compared metamodel
+whether it lies in this domain; the harness then checks the node statements of the real export) -/
+theorem C29_metamodel_nodup_checked (all : List MCls) (base : List Str) (h1 : mmClosedB all = true)
+    (h2 : mmIdsDistinctB all = true) (h3 : noOuterClassB all (base ++ [cl!"OBJECT"]) = true) :
+    ∃ ss, mmDotStmts all base = some ss ∧ (nodeIds ss).Nodup := by
+  obtain ⟨⟨text, ht⟩, _⟩ := C29_metamodel_total all base (mmClosed_of_B h1)
+  unfold mmDot at ht
+  cases hs : mmDotStmts all base with
+  | none => simp [hs] at ht
+  | some ss => exact ⟨ss, rfl, mmDotStmts_nodup hs (nodup_of_distinctB h2) (noOuterClass_of_B h3)⟩
+
+/-- metamodel DOT export, end to end with executable hypotheses (evaluated by the driver on every
+compared case): a text **is produced**, it is valid DOT, every class that is not a match rule / base
+type is recognised as a node with a well-formed record label, and a node id has one label only. -/
+theorem C29_metamodel_dot_export_checked (all : List MCls) (base : List Str) (h1 : all.all clsOkB = true)
+    (h2 : mmClosedB all = true) (h3 : mmIdsDistinctB all = true) :
+    ∃ text ss evs, mmDot all base = some text ∧ text = renderDoc ss ∧ recognise text = some evs ∧
+      evs = headerEvs ++ ss.flatMap stmtEvs ∧
+      (∀ c ∈ all, c.fqn ∉ base ++ [cl!"OBJECT"] → c.name ∉ base ++ [cl!"OBJECT"] → c.typ ≠ .match →
+        ∃ n a, Ev.node (.num (digits c.id)) [(Tok.id cl!"label", .qstr (recordLabel n a))] ∈ evs ∧
+          recOk (recordLabel n a) = true) ∧
+      ∀ m m' i n a n' a', Stmt.node m i n a ∈ ss → Stmt.node m' i n' a' ∈ ss → m = m' ∧ n = n' ∧ a = a' := by
+  have hall : ∀ c ∈ all, ClsOk c := fun c hc => clsOk_of_B (List.all_eq_true.mp h1 c hc)
+  obtain ⟨⟨text, ht⟩, _⟩ := C29_metamodel_total all base (mmClosed_of_B h2)
+  obtain ⟨ss, hss, e1, e2, _, _⟩ := C29_metamodel_dot_valid all base hall text ht
+  refine ⟨text, ss, _, ht, e1, e2, rfl, ?_, ?_⟩
+  · intro c hc a b d
+    obtain ⟨evs, r1, r2, r3⟩ := C29_metamodel_nodes_recognised all base hall text ht c hc a b d
+    have ee : evs = headerEvs ++ ss.flatMap stmtEvs := (Option.some.inj (e2.symm.trans r1)).symm
+    exact ⟨_, _, ee ▸ r2, r3⟩
+  · exact (C29_metamodel_node_labels_unique all base ss hss (nodup_of_distinctB h3)).2
+
+/-- PlantUML export, end to end with executable hypotheses: a text **is produced**, the line recogniser
+accepts it and every common / abstract class is declared. -/
+theorem C29_plantuml_export_checked (all : List MCls) (base : List Str) (lt : Option Str)
+    (h1 : all.all pclsOkB = true) (h2 : linetypeOkB lt = true) (h3 : mmClosedB all = true) :
+    ∃ text declared, mmPuml all base lt = some text ∧ pumlRecognise text = some declared ∧
+      ∀ c ∈ all, c.fqn ∉ base ++ [cl!"OBJECT"] → c.name ∉ base ++ [cl!"OBJECT"] → c.typ ≠ .match →
+        c.fqn ∈ declared := by
+  obtain ⟨_, hp⟩ := C29_metamodel_total all base (mmClosed_of_B h3)
+  obtain ⟨text, ht⟩ := hp lt
+  obtain ⟨declared, r1, r2⟩ := C29_plantuml_checked all base lt h1 h2 text ht
+  exact ⟨text, declared, ht, r1, r2⟩
+
 /-- the same with executable hypotheses (evaluated by the driver on every compared case):
 a text is produced whenever the argument check passes -/
 theorem C29_export_call_checked (h : Heap) (a : Args) (roots : List Root) (h0 : planArgs a = some roots)
@@ -410,5 +555,39 @@ example : exportModel
     some (renderDoc [.edgeObj 1 2 cl!"xs:0" true, .node false 2 cl!":S" [],
       .edgePrim 1 cl!"q\\}:str" cl!"xs:1" true, .node false 1 cl!"a\\\"b:M" []]) := by
   decide +kernel
+
+/-- the hypotheses of `C29_metamodel_dot_export_checked` / `C29_plantuml_export_checked` are met by a
+metamodel with a reference, an inheritance and a match rule -/
+def exampleMM : List MCls :=
+  [{ id := 1, name := cl!"A", fqn := cl!"A", typ := .common,
+     attrs := [{ name := cl!"b", clsId := 2, clsName := cl!"B", clsFqn := cl!"B", mult := cl!"0..*", cont := true, ref := true },
+               { name := cl!"k", clsId := 3, clsName := cl!"K", clsFqn := cl!"K", mult := cl!"1", cont := true, ref := false }],
+     inhBy := [], matchStr := [] },
+   { id := 2, name := cl!"B", fqn := cl!"B", typ := .abstract, attrs := [], inhBy := [1], matchStr := [] },
+   { id := 3, name := cl!"K", fqn := cl!"K", typ := .match, attrs := [], inhBy := [], matchStr := cl!"'<'|\"}\"" }]
+
+example : exampleMM.all clsOkB = true ∧ mmClosedB exampleMM = true ∧ mmIdsDistinctB exampleMM = true ∧
+    exampleMM.all pclsOkB = true ∧ linetypeOkB (some cl!"ortho") = true ∧
+    noOuterClassB exampleMM [cl!"OBJECT"] = true ∧ (mmDotStmts exampleMM []).map nodeIds = some [1, 2] ∧
+    (mmDotStmts exampleMM []).map mmEdgeEnds = some [1, 2, 2, 1] := by decide +kernel
+
+/-- `MMClosed` / the hypothesis of `C29_metamodel_total` can fail, and then no text is produced:
+a dangling attribute class, a dangling `inh_by` entry -/
+example : mmDot
+    [{ id := 1, name := cl!"A", fqn := cl!"A", typ := .common,
+       attrs := [{ name := cl!"b", clsId := 7, clsName := cl!"B", clsFqn := cl!"B", mult := cl!"1", cont := true, ref := true }],
+       inhBy := [], matchStr := [] }] [] = none := by decide +kernel
+
+example : mmPuml [{ id := 1, name := cl!"A", fqn := cl!"A", typ := .abstract, attrs := [], inhBy := [7], matchStr := [] }] []
+    none = none := by decide +kernel
+
+/-- `NoOuterClass` holds for the example metamodel (no attribute refers to `OBJECT`) -/
+example : NoOuterClass exampleMM [cl!"OBJECT"] := by
+  intro c hc a ha d hf hd
+  simp only [mmClasses, exampleMM] at hc
+  have hd' : d.fqn = cl!"OBJECT" := by simpa using hd
+  have hmem := findCls_mem hf
+  simp only [exampleMM, List.mem_cons, List.not_mem_nil, or_false] at hmem
+  rcases hmem with rfl | rfl | rfl <;> simp at hd'
 
 end Dot
